@@ -87,7 +87,11 @@ std::vector<unsigned> rot_counts(Rng& rng, bool all)
     if (all)
         for (unsigned s = 0; s <= 2 * w; ++s) c.push_back(s);
     else {
-        for (unsigned s : {0u, 1u, w - 1, w, w + 1, 2 * w}) c.push_back(s);
+        if constexpr (sizeof(T) == 2) {
+            // exhaustive 16-bit values: the multiples of the width and one random count per value
+            for (unsigned s : {0u, w, 2 * w}) c.push_back(s);
+        } else
+            for (unsigned s : {0u, 1u, w - 1, w, w + 1, 2 * w}) c.push_back(s);
         c.push_back(unsigned(rng.below(int(2 * w + 1))));
     }
     return c;
@@ -173,6 +177,13 @@ void report(char const* name, T x)
 inline char const* const sweep_names[] = {"countl_zero", "countl_one", "countr_zero", "countr_one", "popcount", "ispow2",
                                           "ceil2", "floor2", "log2p1", "rotl", "rotr", "countl_rsb", "used_digits", "trailing_bits"};
 
+inline int bump(volatile int& r)
+{
+    int v = r + 1;
+    r = v;
+    return v;
+}
+
 // one chunk [lo, hi] of the 32-bit space; returns number of mismatching (function, input) pairs
 inline unsigned long long sweep(std::uint64_t lo, std::uint64_t hi, unsigned s1, unsigned s2)
 {
@@ -187,7 +198,7 @@ inline unsigned long long sweep(std::uint64_t lo, std::uint64_t hi, unsigned s1,
             bad = bad + 1;
             std::uint32_t x = sweep_x;
             int fn = sweep_fn;
-            if ((restarts = restarts + 1) <= 64) {
+            if (bump(restarts) <= 64) {
                 if (fn < 9)
                     report(sweep_names[fn], x);
                 else if (fn == 9 || fn == 10) {
@@ -211,7 +222,7 @@ inline unsigned long long sweep(std::uint64_t lo, std::uint64_t hi, unsigned s1,
     sweep_fn = N; \
     if ((CNL) != (STD)) { \
         bad = bad + 1; \
-        if ((restarts = restarts + 1) <= 64) report(NAME, x); \
+        if (bump(restarts) <= 64) report(NAME, x); \
     }
             SW(0, "countl_zero", cnl::countl_zero(x), std::countl_zero(x))
             SW(1, "countl_one", cnl::countl_one(x), std::countl_one(x))
@@ -228,7 +239,7 @@ inline unsigned long long sweep(std::uint64_t lo, std::uint64_t hi, unsigned s1,
             for (unsigned s : {s1, s2, 0u, 32u}) {
                 if (cnl::rotl(x, s) != std::rotl(x, int(s % 32u)) || cnl::rotr(x, s) != std::rotr(x, int(s % 32u))) {
                     bad = bad + 1;
-                    if ((restarts = restarts + 1) <= 64) rot(x, s);
+                    if (bump(restarts) <= 64) rot(x, s);
                 }
             }
             sweep_fn = 11;
@@ -240,7 +251,7 @@ inline unsigned long long sweep(std::uint64_t lo, std::uint64_t hi, unsigned s1,
                     || cnl::countr_used(v) != bl || cnl::trailing_bits(v) != (x ? std::countr_zero(x) : 0)
                     || cnl::used_digits(x) != int(std::bit_width(x)) || cnl::trailing_bits(x) != (x ? std::countr_zero(x) : 0)) {
                     bad = bad + 1;
-                    if ((restarts = restarts + 1) <= 64) {
+                    if (bump(restarts) <= 64) {
                         auto x = v;
                         bits_any(x);
                     }
